@@ -51,7 +51,7 @@ def _mk(kind, B, hetero=None, dk_both=False):
             def equation(self, t, u, p):
                 return jnp.array([psi(0)(u(t, p)[0] + 2.0 * sc(p.eq_params["kappa"]) + 3.0 * sc(p.eq_params["mu"]) + 0.5 * sc(t))])
         dkw = dict(derivative_keys=DerivativeKeysODE.from_str(params, dyn_loss="both", observations="both", initial_condition="both")) if dk_both else {}
-        loss = LossODE(u=u, dynamic_loss=Eq(Tmax=1, eq_params_heterogeneity=hetero), initial_condition=(jnp.array(0.25), jnp.array([0.5])), params=params, **dkw)
+        loss = LossODE(u=u, dynamic_loss=Eq(Tmax=(2.5 if hetero else 1), eq_params_heterogeneity=hetero), initial_condition=(jnp.array(0.25), jnp.array([0.5])), params=params, **dkw)
         obs = {"pinn_in": jnp.arange(1, B + 1).reshape(B, 1) * 0.125, "val": jnp.arange(1, B + 1).reshape(B, 1) * 0.25, "eq_params": {}}
         batch = ODEBatch(temporal_batch=jnp.arange(1, B + 1) * 0.2, obs_batch_dict=obs)
     elif kind == "statio":
@@ -59,7 +59,7 @@ def _mk(kind, B, hetero=None, dk_both=False):
             def equation(self, x, u, p):
                 return jnp.array([psi(0)(u(x, p)[0] + 2.0 * sc(p.eq_params["kappa"]) + 3.0 * sc(p.eq_params["mu"]) + 0.5 * x[0])])
         dkw = dict(derivative_keys=DerivativeKeysPDEStatio.from_str(params, dyn_loss="both", observations="both", boundary_loss="both", norm_loss="both")) if dk_both else {}
-        loss = LossPDEStatio(u=u, dynamic_loss=Eq(Tmax=1, eq_params_heterogeneity=hetero), omega_boundary_fun=lambda dx: 0.5, omega_boundary_condition="dirichlet", params=params, **dkw)
+        loss = LossPDEStatio(u=u, dynamic_loss=Eq(Tmax=(2.5 if hetero else 1), eq_params_heterogeneity=hetero), omega_boundary_fun=lambda dx: 0.5, omega_boundary_condition="dirichlet", params=params, **dkw)
         obs = {"pinn_in": jnp.arange(1, B + 1).reshape(B, 1) * 0.125, "val": jnp.arange(1, B + 1).reshape(B, 1) * 0.25, "eq_params": {}}
         batch = PDEStatioBatch(inside_batch=jnp.arange(1, B + 1).reshape(B, 1) * 0.2, border_batch=jnp.arange(1, 2 * B + 1).reshape(B, 1, 2) * 0.15, obs_batch_dict=obs)
     else:
@@ -67,7 +67,7 @@ def _mk(kind, B, hetero=None, dk_both=False):
             def equation(self, t, x, u, p):
                 return jnp.array([psi(0)(u(t, x, p)[0] + 2.0 * sc(p.eq_params["kappa"]) + 3.0 * sc(p.eq_params["mu"]) + 0.5 * t[0] + 0.25 * x[0])])
         dkw = dict(derivative_keys=DerivativeKeysPDENonStatio.from_str(params, dyn_loss="both", observations="both", boundary_loss="both", norm_loss="both", initial_condition="both")) if dk_both else {}
-        loss = LossPDENonStatio(u=u, dynamic_loss=Eq(Tmax=1, eq_params_heterogeneity=hetero), omega_boundary_fun=lambda t, dx: 0.5, omega_boundary_condition="dirichlet",
+        loss = LossPDENonStatio(u=u, dynamic_loss=Eq(Tmax=(2.5 if hetero else 1), eq_params_heterogeneity=hetero), omega_boundary_fun=lambda t, dx: 0.5, omega_boundary_condition="dirichlet",
                                 initial_condition_fun=lambda x: 0.25 * x[0], params=params, **dkw)
         obs = {"pinn_in": jnp.arange(1, 2 * B + 1).reshape(B, 2) * 0.125, "val": jnp.arange(1, B + 1).reshape(B, 1) * 0.25, "eq_params": {}}
         batch = PDENonStatioBatch(times_x_inside_batch=jnp.arange(1, 2 * B + 1).reshape(B, 2) * 0.2,
@@ -166,6 +166,8 @@ def run(cfg, R):
         return tot / B
 
     def f(loss, params, batch):
+        # the caller's dictionary in the caller's (non-alphabetical) key order: theta, kappa, mu
+        params = type(params)(nn_params=params.nn_params, eq_params={k: params.eq_params[k] for k in KEYS})
         out = (loss.evaluate(params, batch), params)
         if part == "batch" and batched:
             g = jax.grad(lambda p: loss.evaluate(p, batch)[1]["dyn_loss"])(params)
